@@ -4,11 +4,18 @@ L1: theorems of NfcVerif.Props.C18 about the executable model of
     ContactlessFrontend.connect/_rdwr_connect/_llcp_connect/_card_connect/sense/listen/exchange
     (Model/Sense.lean, Model/Connect.lean), for every option record, environment script and
     terminate stream.
-L2: the REAL ContactlessFrontend on a scripted device / scripted collaborators
-    (harness/sims/conn_world.py; only nfc/clf/__init__.py is under test) against the Lean model
-    driver drv_c18 on the same option records, scripts and terminate streams: callback sequence,
-    driver call log, terminate polls, return value / exception, frontend.target.
-L3: the documented contract stated directly on the real run (independent of the model).
+    The model contains nfc.tag.activate with the type specific activation code (tt1/tt2/tt2_nxp/
+    tt3/tt4: which commands, which nested sense() calls, what happens to every exception) and
+    nfc.tag.emulate.
+L2: the REAL ContactlessFrontend, the REAL nfc.tag.activate / nfc.tag.emulate and tag classes on a
+    scripted device (harness/sims/conn_world.py; stand-ins only for Tag.is_present and the
+    LogicalLinkController) against the Lean model driver drv_c18 on the same option records,
+    scripts and terminate streams: callback sequence, driver call log, terminate polls, return
+    value / exception, frontend.target.  Every tag kind x every answer (data, each
+    CommunicationError class, device errors) at the first and later activation commands.
+L3: the documented contract stated directly on the real run (independent of the model), also on
+    runs where nothing of nfc.tag is replaced (harness/sims/conn_realtags.py: real presence
+    checks of every tag type under every CommunicationError class / damaged frames).
 """
 import itertools
 import logging
@@ -31,6 +38,10 @@ THEOREMS = [
     "NfcVerif.C18.sense_field_off_when_none",
     "NfcVerif.C18.sense_no_raise_unsupported",
     "NfcVerif.C18.exchange_no_stale_target",
+    "NfcVerif.C18.activate_absorbs_communication_errors",
+    "NfcVerif.C18.activate_gets_current_target",
+    "NfcVerif.C18.activate_typeerror_counterexample",
+    "NfcVerif.C18.history_no_stale_target",
 ]
 
 PROMPT_BOUND = 21      # events after the first true terminate() answer (theorem connect_ends_after_terminate)
@@ -42,9 +53,21 @@ FOUND = [  # (token, valid as a Type A answer)
     ("F.44.-.0.0", False), ("F.440000.-.0.0", False), ("F.-.-.0.0", False), ("F.0000.1148b2565400.0.0", False),
     ("F.000c.-.0.0", False), ("F.000c.1148b25654.0.0", False), ("F.000c.0048b2565400.0.0", False),
 ]
-PLAIN = ["0", "c", "k", "u", "i", "K", "X", "L", "p0", "p1", "p2", "p5"]
+FOUND += [  # platform variants of a Type A answer (var: bit 0 ISO-DEP, bit 1 NFCID1 not NXP), see conn_world.py
+    ("F.4400.-.0.0.1", True), ("F.4400.-.0.0.2", True), ("F.4400.-.1.0.1", True), ("F.4403.-.0.0.3", True),
+    ("F.440c.-.0.0", True),          # SENS_RES byte 1 says Type 1, byte 0 does not: no RID response (open finding)
+]
+# answers that matter as the response DATA of an activation command (AUTHENTICATE ack, GET_VERSION of a known
+# product / of an unknown one / the 00h of NTAG203, an ATS)
+DATA = ["F.af00112233445566.-.0.0", "F.0004040201000f03.-.0.0", "F.0004030101000b03.-.0.0", "F.00.-.0.0",
+        "F.0004040201000f.-.0.0", "F.0578807002.-.0.0", "F.-.-.0.0"]
+COMM = ["c", "k", "T", "P"]          # TimeoutError, BrokenLinkError, TransmissionError, ProtocolError
+PLAIN = ["0", "c", "k", "T", "P", "u", "i", "K", "X", "L", "p0", "p1", "p2", "p5"]
 TARGETS = ["a", "a4", "a7", "a10", "a3", "a11", "b", "f", "d16", "d40", "d64", "d15", "d0", "d65", "x"]
 INVALID = {"a3", "a11", "d15", "d0", "d65"}
+
+
+VALID_FOUND = [t for t, ok in FOUND if ok]
 
 
 def valid_tta(sens, rid):
@@ -56,16 +79,29 @@ def valid_tta(sens, rid):
     return True
 
 
+def unexpected(ck, where, e, replay):
+    """an exception the harness did not foresee while driving / judging the code under test: a failing input"""
+    import traceback
+    tb = traceback.extract_tb(e.__traceback__)
+    frames = ["%s:%d %s" % (f.filename.rsplit("/", 2)[-1], f.lineno, f.name) for f in tb[-6:]]
+    inside = any("/nfc/" in f.filename for f in tb)
+    replay = dict(replay)
+    replay.update({"exception": repr(e), "frames": frames})
+    ck.fail("unexpected-exception:%s:%s" % (where, common.exc_name(e).split("(")[0]),
+            "%s while %s (%s nfcpy): %s" % (type(e).__name__, where, "inside" if inside else "outside", e), replay)
+
+
 def gen_env(rng, n, p_found=0.45, p_exc=0.08, run_bias=False):
     out = []
     for _ in range(n):
         x = rng.random()
         if x < p_found:
-            tok = rng.choice(FOUND)[0] if rng.random() < 0.5 else rng.choice(FOUND[:9])[0]
+            y = rng.random()
+            tok = rng.choice(FOUND)[0] if y < 0.4 else rng.choice(DATA) if y < 0.5 else rng.choice(VALID_FOUND)
         elif x < p_found + p_exc:
             tok = rng.choice(["i", "K", "u", "X", "L"])
-        elif x < p_found + p_exc + 0.12:
-            tok = rng.choice(["c", "k", "p0", "p1", "p2", "p5"])
+        elif x < p_found + p_exc + 0.15:
+            tok = rng.choice(["c", "k", "T", "P", "c", "p0", "p1", "p2", "p5"])
         else:
             tok = "0"
         out.append(tok)
@@ -250,6 +286,29 @@ def all_supplied(spec):
     return True
 
 
+COMM_NAMES = ("TimeoutError", "TransmissionError", "ProtocolError", "BrokenLinkError", "CommunicationError")
+
+
+def in_activation(log):
+    """nfc.tag.activate was called and neither returned into on-connect nor into the next round"""
+    for t in reversed(log):
+        if t == "act":
+            return True
+        if t.startswith("cb:") or t in ("t0", "t1"):
+            return False
+    return False
+
+
+def in_presence(log):
+    """the last callback is a true on-connect of the rdwr option: the presence loop is running"""
+    import sims.conn_world as cw
+    for t in reversed(log):
+        if t.startswith("cb:"):
+            p = t.split(":")
+            return p[1] == "rdwr" and p[2] == "connect" and cw.val_truthy(int(p[3]))
+    return False
+
+
 def oracle_connect(ck, cw, spec, env_toks, ts, txt, r, w, replay):
     """the documented contract of connect() on one run (all callbacks supplied, so all are visible)"""
     cbs = [t.split(":")[1:] for t in w.log if t.startswith("cb:")]          # [role, kind, code]
@@ -260,7 +319,7 @@ def oracle_connect(ck, cw, spec, env_toks, ts, txt, r, w, replay):
     # preconditions of the documentation
     if spec.rdwr is not None and spec.rdwr["su"] == 3:
         return "precondition"        # on-startup "must return a list"
-    if spec.card is not None and spec.card["su"] == 0 and spec.card["kind"] == "x":
+    if spec.card is not None and spec.card["su"] in (0, 3) and spec.card["kind"] == "x":
         return "precondition"        # LocalTarget with an unknown technology
     single_bad = (spec.rdwr is not None and len(spec.rdwr["tg"]) == 1 and spec.rdwr["tg"][0] in INVALID)
     # ---- exceptions that leave connect()
@@ -271,6 +330,27 @@ def oracle_connect(ck, cw, spec, env_toks, ts, txt, r, w, replay):
         elif "BrokenLinkError@listen" in inj:
             ck.fail("connect-raises-communication-error-from-listen",
                     "a CommunicationError raised inside listen() left connect() as %s" % name, replay)
+        elif name == "TypeError" and w.log[-1:] == ["act"] and w.act_targets:
+            # nfc.tag.activate was handed a target it cannot handle and raised before sending anything
+            t = w.act_targets[-1]
+            if t.atr_res is not None or t.atr_req is not None:
+                ck.fail("connect-typeerror-activate-dep-target",
+                        "rdwr option with an NFC-DEP target accepted by on-discover: nfc.tag.activate raised TypeError "
+                        "(no sens_res) and it left connect() (%s)" % spec.token(), replay)
+            elif t.sens_res is not None and len(t.sens_res) == 2 and t.sens_res[1] & 0x0F == 0x0C and not t.rid_res:
+                ck.fail("connect-typeerror-activate-tt1-without-rid",
+                        "SENS_RES %s (byte 1 says Type 1 Tag, byte 0 does not, so no RID response was requested): "
+                        "nfc.tag.activate raised TypeError and it left connect()" % bytes(t.sens_res).hex(), replay)
+            else:
+                ck.fail("connect-raises:TypeError", "nfc.tag.activate raised TypeError for %s (%s)" % (t, spec.token()), replay)
+        elif name in COMM_NAMES and in_activation(w.log):
+            ck.fail("connect-raises-communication-error-from-activation:" + name,
+                    "a %s raised by a command of the tag activation (log ...%s) left connect(): a failed activation is "
+                    "documented as 'try again', connect() returns None/False/True/object only"
+                    % (name, " ".join(w.log[-4:])), replay)
+        elif in_presence(w.log):
+            ck.fail("connect-raises-from-presence-check:" + name,
+                    "%s raised inside the presence check of a connected tag left connect() (%s)" % (name, spec.token()), replay)
         elif name == "ValueError" and single_bad:
             return "precondition"
         elif name == "ValueError" and spec.rdwr is not None and any(t in INVALID for t in spec.rdwr["tg"]):
@@ -366,6 +446,48 @@ def oracle_connect(ck, cw, spec, env_toks, ts, txt, r, w, replay):
                   or (c == "UnsupportedTargetError" and site.startswith("l")))
         if len(w.log) != pos:
             ck.fail("activity-after-error", "events %s after the device error" % w.log[pos:], replay)
+    # ---- a discovered target is activated only (and at once) after a true on-discover
+    for i, t in enumerate(w.log):
+        if t in ("act", "emu"):
+            role = "rdwr" if t == "act" else "card"
+            prev = w.log[i - 1] if i else ""
+            if not (prev.startswith("cb:%s:discover:" % role) and cw.val_truthy(int(prev.rsplit(":", 1)[1]))):
+                ck.fail("activation-without-true-on-discover",
+                        "nfc.tag.%s was called but the preceding event is %r, not a true on-discover of the %s option"
+                        % ("activate" if t == "act" else "emulate", prev, role), replay)
+                break
+    for i, t in enumerate(w.log):
+        if t.startswith("cb:rdwr:discover:") or t.startswith("cb:card:discover:"):
+            role = t.split(":")[1]
+            truthy = cw.val_truthy(int(t.rsplit(":", 1)[1]))
+            nxt = w.log[i + 1] if i + 1 < len(w.log) else None
+            if truthy and nxt is not None and nxt != ("act" if role == "rdwr" else "emu"):
+                ck.fail("no-activation-after-true-on-discover",
+                        "on-discover of %s returned a true value but the next event is %r" % (role, nxt), replay)
+                break
+            if not truthy and nxt in ("act", "emu"):
+                ck.fail("activation-without-true-on-discover", "on-discover returned a false value, next event %r" % nxt, replay)
+                break
+    # ---- the counterpart goes away: on-release is the next thing that happens
+    for (pos, site, c) in w.injected:
+        if site[:2] not in ("xl", "xr") or c not in COMM_NAMES or pos >= len(w.log):
+            continue
+        before = [t for t in w.log[:pos] if t.startswith("cb:")]
+        if not before:
+            continue
+        role, kind, code = before[-1].split(":")[1:]
+        if kind != "connect" or not cw.val_truthy(int(code)):
+            continue
+        if role == "card" and site.startswith("xl") and c == "BrokenLinkError" and not w.log[pos].startswith("cb:card:release"):
+            ck.fail("card-no-release-after-broken-link",
+                    "the reader left (BrokenLinkError from the device) but on-release is not the next event: ...%s"
+                    % " ".join(w.log[max(0, pos - 2):pos + 4]), replay)
+        # (stand-in presence check only: one exchange per check; the real checks of the real-tag runs retry)
+        if role == "rdwr" and site.startswith("xr") and not w.commands and \
+                not (w.log[pos] == "off" and (pos + 1 == len(w.log) or w.log[pos + 1].startswith("cb:rdwr:release"))):
+            ck.fail("rdwr-no-release-after-tag-gone",
+                    "the presence check failed (%s) but LED off / on-release are not the next events: ...%s"
+                    % (c, " ".join(w.log[max(0, pos - 2):pos + 4])), replay)
     # ---- ends promptly once terminate() is true (the predicate stays true)
     if "t1" in w.log and all(ts[i] or not any(ts[:i]) for i in range(len(ts))):
         after = len(w.log) - 1 - w.log.index("t1")
@@ -395,14 +517,14 @@ def gen_spec(rng, cw, full=False):
     rdwr = llcp = card = None
     which = rng.choice([1, 2, 4, 3, 5, 6, 7, 1, 2, 4, 0]) if not full else rng.choice([1, 2, 4, 3, 5, 6, 7])
     if which & 1:
-        su = "-" if rng.random() < pa else rng.choice([0, 0, 0, 0, 0, 1, 2, 3, 4])
+        su = "-" if rng.random() < pa else rng.choice([0, 0, 0, 0, 5, 5, 1, 2, 3, 4])
         rdwr = {"su": su, "tg": gen_targets(rng, plain=(su == "-")), "di": gen_cb(rng, pa), "co": gen_cb(rng, pa),
                 "re": gen_cb(rng, pa), "it": rng.choice([1, 1, 2, 3, 0, -1, 5]), "bp": rng.choice([0, 1])}
     if which & 2:
         llcp = {"su": "-" if rng.random() < pa else rng.choice([0, 0, 0, 0, 1, 2]), "co": gen_cb(rng, pa), "re": gen_cb(rng, pa),
                 "role": rng.choice(["-", "-", "t", "i", "x"])}
     if which & 4:
-        card = {"su": "-" if rng.random() < pa * 0.5 else rng.choice([0, 0, 0, 0, 0, 1, 2]), "kind": rng.choice(["a", "b", "f", "d", "d", "x"] if not full else ["a", "b", "f", "d"]),
+        card = {"su": "-" if rng.random() < pa * 0.5 else rng.choice([0, 0, 0, 3, 3, 1, 2]), "kind": rng.choice(["a", "b", "f", "f", "d", "d", "x"] if not full else ["a", "b", "f", "f", "d"]),
                 "di": gen_cb(rng, pa), "co": gen_cb(rng, pa), "re": gen_cb(rng, pa)}
     return cw.ConnSpec(rdwr, llcp, card)
 
@@ -416,6 +538,102 @@ def product_specs(cw):
             llcp = {"su": 0, "co": co, "re": re, "role": "-"} if which & 2 else None
             card = {"su": 0, "kind": "f", "di": di, "co": co, "re": re} if which & 4 else None
             out.append(cw.ConnSpec(rdwr, llcp, card))
+    return out
+
+
+# ------------------------------------------------------------------------------------------ the activation step
+GOOD_A = "F.4400.-.0.0"
+SLOT = DATA[:4] + [GOOD_A, "0"] + COMM + ["i", "K", "u"]        # what one step of an activation may be answered
+KINDS = [   # (name, rdwr targets, answers of the first round up to and including the discovery)
+    ("tt1", ["a", "b"], ["0", "F.000c.1148b2565400.0.0"]),
+    ("tt1-512", ["a", "b"], ["0", "F.000c.124cb2565400.0.0"]),
+    ("tt2-nxp", ["a", "b"], ["0", GOOD_A]),
+    ("tt2-other", ["a", "b"], ["0", "F.4400.-.0.0.2"]),
+    ("tt4a", ["a", "b"], ["0", "F.4400.-.0.0.1"]),
+    ("tt4a-08", ["a", "b"], ["0", "F.4403.-.0.0.3"]),
+    ("tt4a-p2p", ["a", "b"], ["0", "F.4400.-.1.0.1"]),
+    ("p2p-only", ["a", "b"], ["0", "F.4400.-.1.0"]),
+    ("p2p-only-08", ["a", "b"], ["0", "F.4400.-.1.0.2"]),
+    ("tt4b", ["a", "b"], ["0", "0", "F.-.-.0.0"]),
+    ("tt3", ["a", "f"], ["0", "0", "F.-.-.0.0"]),
+    ("tt3-p2p", ["a", "f"], ["0", "0", "F.-.-.1.0"]),
+    ("tt1-norid", ["a", "b"], ["0", "F.440c.-.0.0"]),           # open finding (TypeError)
+    ("dep", ["d16", "b"], ["0", "F.-.-.0.0"]),                   # open finding (TypeError)
+    ("single-a", ["a7"], ["0", GOOD_A]),
+]
+NXP_PATHS = [   # answers that walk nfc.tag.tt2_nxp.activate to each of its results (after the discovery)
+    ["c", "0", GOOD_A, "c", "0", GOOD_A],                        # no AUTHENTICATE, no GET_VERSION: MifareUltralight
+    [DATA[0], "0", GOOD_A],                                      # AUTHENTICATE acknowledged: MifareUltralightC
+    ["c", "0", GOOD_A, DATA[1]],                                 # GET_VERSION of a known product
+    ["c", "0", GOOD_A, DATA[3], "0", GOOD_A],                    # GET_VERSION answered 00: NTAG203
+    [DATA[3], "0", GOOD_A, DATA[4], "0", GOOD_A],                # unknown version: generic Type2Tag after a re-select
+    [DATA[3], "0", "0", "0"],                                    # the tag is gone when re-selected
+    ["c", "0", GOOD_A, "c", "0", "P", "0"],                      # re-select answered with a damaged SENS_RES
+]
+
+
+def activation_cases(ck, cw, rng):
+    """(spec, env, ts): every tag kind x what the activation commands are answered, first and later commands"""
+    out = []
+    cbs = [(2, 2, 2), (2, 1, 2)] if not ck.thorough else [(2, 2, 2), (2, 1, 2), (2, 2, 1), (4, 6, 0)]
+    for name, tg, first in KINDS:
+        tails = [[a] for a in SLOT]
+        tails += [[a, b] for a in SLOT for b in SLOT]
+        if ck.thorough and name in ("tt2-nxp", "tt4a", "tt4b", "single-a"):
+            tails += [[a, b, c] for a in SLOT for b in SLOT for c in SLOT]
+        tails += [[rng.choice(SLOT) for _ in range(rng.randrange(3, 12))] for _ in range(80 if ck.thorough else 16)]
+        if name in ("tt2-nxp", "single-a"):
+            for path in NXP_PATHS:
+                tails.append(list(path))
+                for i in range(len(path)):
+                    for a in (SLOT if ck.thorough else COMM + ["i", "u", "0", DATA[3]]):
+                        if a != path[i]:
+                            tails.append(path[:i] + [a] + path[i + 1:])
+        for ti, tail in enumerate(tails):
+            di, co, re_ = cbs[ti % len(cbs)]
+            spec = cw.ConnSpec(rdwr={"su": 0, "tg": tg, "di": di, "co": co, "re": re_, "it": 1, "bp": ti % 2})
+            # second round: the same tag again, answering every step with data (the retry must work)
+            env = first + tail
+            out.append((spec, env, [False] * rng.choice([1, 2, 3])))
+    return out
+
+
+def real_tag_cases(ck, rt, rng):
+    """(tag simulator, fault plan, gone_after, callbacks, terminate stream) for the runs on REAL tags"""
+    out = []
+    for tag_i in range(len(rt.all_tags())):
+        for fault in rt.FAULTS:
+            for n in range(0, 7 if ck.thorough else 5):
+                for burst in ((1, 3) if not ck.thorough else (1, 2, 3, 4)):
+                    out.append((tag_i, {n + j: fault for j in range(burst)}, None))
+        for gone in range(0, 6):
+            out.append((tag_i, {}, gone))
+        for _ in range(150 if ck.thorough else 25):
+            plan = {rng.randrange(0, 12): rng.choice(rt.FAULTS) for _ in range(rng.randrange(1, 5))}
+            out.append((tag_i, plan, rng.choice([None, None, rng.randrange(2, 10)])))
+    return out
+
+
+def hygiene_histories():
+    """enumerated multi-step histories: a call that captures a target, a call that fails in every way, exchange"""
+    finds = [(("S", ["a", "b"], 1), ["0", "F.4400.-.0.0"]), (("S", ["f"], 2), ["0", "F.-.-.0.0"]),
+             (("L", "a"), ["0", "F.-.-.0.0"]), (("L", "d"), ["0", "F.-.-.0.20"])]
+    fails = []
+    for a in ["0", "c", "k", "T", "P", "u", "i", "K", "L", "F.44.-.0.0", "F.-.-.0.15"]:
+        fails.append((("S", ["a", "b"], 1), ["0", a, "0", "0"]))
+        fails.append((("S", ["a"], 1), ["0", a, "0"]))
+        fails.append((("L", "a"), ["0", a]))
+        fails.append((("L", "d"), ["0", a]))
+    for a in ["i", "K"]:
+        fails.append((("S", ["a", "b"], 1), [a]))
+        fails.append((("L", "b"), [a]))
+    fails += [(("S", ["n"], 1), []), (("S", ["a3"], 1), ["0"]), (("S", ["x"], 1), ["0"]), (("L", "x"), ["0"]),
+              (("S", [], 1), ["0"])]
+    out = []
+    for f_op, f_env in finds:
+        for g_op, g_env in fails:
+            out.append((f_env + ["F.00.-.0.0"] + g_env + ["F.00.-.0.0", "F.00.-.0.0"], [f_op, ("X",), g_op, ("X",), ("X",)]))
+            out.append((g_env + f_env + ["F.00.-.0.0"], [g_op, ("X",), f_op, ("X",)]))
     return out
 
 
@@ -457,18 +675,25 @@ def run(ck):
     import sims.conn_world as cw
     rng = ck.rng
     ck.rule = ("connect cases: (option record, environment script, terminate stream); non-trivial = at least one callback "
-               "other than on-startup ran or an exception was injected; history cases: (script, sequence of sense/listen/"
+               "other than on-startup ran or an exception was injected; activation cases: (tag kind, answers of the "
+               "activation steps: exhaustive for the first two steps over 13 answers, single faults along every path of the "
+               "NXP product detection, random tails); real-tag cases: (tag type, fault plan, tag leaves at command n); "
+               "history cases: (script, sequence of sense/listen/"
                "exchange calls); non-trivial = a driver call other than mute happened. distinct by hash of the request line")
     ck.assumptions += [
         "callbacks return a value (they do not raise) and terminate() eventually stays true (an exhausted stream answers true)",
-        "nfc.tag.activate / nfc.tag.emulate / LogicalLinkController.activate / run are replaced by scripted stand-ins: "
-        "only src/nfc/clf/__init__.py is under test; a Tag's presence check and a TagEmulation's send_response are one "
-        "frontend.exchange() each",
-        "drivers return None or a target from sense_*/listen_* or raise CommunicationError, UnsupportedTargetError, IOError",
+        "model-compared runs: nfc.tag.activate, the activation code of every tag type and nfc.tag.emulate are the real "
+        "ones; Tag.is_present is a stand-in (one frontend.exchange() per check) and LogicalLinkController.activate / run "
+        "are scripted (real in the real-LLC runs); the real presence checks of every tag type run in the oracle-only "
+        "real-tag runs",
+        "drivers return None or a target from sense_*/listen_* or raise a CommunicationError subclass, "
+        "UnsupportedTargetError, IOError, KeyboardInterrupt; send_cmd_recv_rsp returns data or raises one of these",
+        "a run of more than 4000 events is reported as not terminating (Runaway)",
         "the model equals the Python functions outside the compared inputs (D-tie is a sample)",
     ]
     ck.trusted += ["hand-written Lean models NfcVerif.Model.Sense / NfcVerif.Model.Connect, tied by differential runs",
-                   "harness/sims/conn_world.py (scripted device and collaborators), harness/props/c18.py (oracle)"]
+                   "harness/sims/conn_world.py (scripted device and collaborators), harness/sims/conn_realtags.py "
+                   "(tag simulators for the real-tag runs), harness/props/c18.py (oracle)"]
     ck.lean("NfcVerif.Props.C18", THEOREMS)
     if ck.thorough:
         ck.leanchecker(["NfcVerif.Props.C18"])
@@ -478,7 +703,7 @@ def run(ck):
 
     with cw.installed(nfc, world) as new_clf:
         # ------------------------------------------------------------ histories of sense / listen / exchange
-        n_hist = 6000 if ck.thorough else 900
+        n_hist = 12000 if ck.thorough else 2500
         corpus = [
             (["0", "0", "0"], [("S", ["a", "a3"], 1)]),                       # F24: invalid sel_req among two targets
             (["0", "0", "0"], [("S", ["d15", "b"], 2)]),                      # F24: short atr_req among two targets
@@ -488,6 +713,8 @@ def run(ck):
             (["0", "F.4400.-.0.0", "0", "i"], [("S", ["f"], 1), ("S", ["a"], 1), ("X",)]),
             ([], [("S", [], 3), ("X",)]),
         ]
+        corpus += hygiene_histories()
+        ck.count("history: enumerated capture/fail/exchange", len(corpus) - 7)
         for h in range(n_hist + len(corpus)):
             if h < len(corpus):
                 env, ops = corpus[h]
@@ -503,50 +730,42 @@ def run(ck):
                     else:
                         ops.append(("X",))
                 env = gen_env(rng, rng.randrange(0, 14), p_found=rng.choice([0.15, 0.3, 0.5]), p_exc=rng.choice([0.0, 0.05, 0.15]))
-            line, recs, w = run_ops(nfc, cw, world, new_clf, env, ops)
             req = "ops %s %s" % (",".join(env) or "-", ops_token(ops))
+            try:
+                line, recs, w = run_ops(nfc, cw, world, new_clf, env, ops)
+            except Exception as e:  # noqa  (the harness must survive whatever the code under test does)
+                unexpected(ck, "history", e, {"request": req})
+                continue
             reqs.append((req, line, "history"))
             nontrivial = any(t not in ("mute", "sleep") for t in w.log)
             ck.case(req, nontrivial, "history:" + ("found" if " ok r" in line or " ok l" in line or line.split(" | ")[1].startswith(("ok r", "ok l")) else "exc" if "exc " in line else "none"),
                     sample={"request": req, "impl": line} if len(ck.samples) < 2 else None)
-            oracle_ops(ck, cw, recs, w, {"request": req, "impl": line})
+            try:
+                oracle_ops(ck, cw, recs, w, {"request": req, "impl": line})
+            except Exception as e:  # noqa
+                unexpected(ck, "history-oracle", e, {"request": req, "impl": line})
 
-        # ------------------------------------------------------------ connect(): product of option records x terminate times
-        specs = product_specs(cw)
-        n_rand = 2500 if ck.thorough else 350
-        specs += [gen_spec(rng, cw, full=(i % 2 == 0)) for i in range(n_rand)]
-        corpus_c = [
-            (cw.ConnSpec(llcp={"su": 0, "co": 2, "re": 2, "role": "i"}), ["F.4400.-.0.0", "X"], [False, False]),     # F21
-            (cw.ConnSpec(card={"su": 0, "kind": "d", "di": 2, "co": 2, "re": 2}), ["0", "L"], [False, False]),        # F30
-            (cw.ConnSpec(rdwr={"su": 0, "tg": ["a3", "b"], "di": 2, "co": 2, "re": 2, "it": 1, "bp": 1}), [], [False, True]),  # F24
-            (cw.ConnSpec(rdwr={"su": 0, "tg": ["a"], "di": "-", "co": 2, "re": 2, "it": 1, "bp": 1}),
-             ["0", "F.4400.-.1.0", "F.4400.-.0.0"], [False, True]),                                                   # default on-discover
-        ]
-        n_connect = 0
-        for si, spec in enumerate([c[0] for c in corpus_c] + specs):
-            if si < len(corpus_c):
-                env, streams = corpus_c[si][1], [corpus_c[si][2]]
-            else:
-                env = gen_env(rng, rng.randrange(0, 30), p_found=rng.choice([0.3, 0.5, 0.7, 0.9]),
-                              p_exc=rng.choice([0.0, 0.0, 0.03, 0.1]))
-                # base run: terminate never true within the stream -> how many polls happen
-                base = [False] * (40 if ck.thorough else 14)
-                _, _, _, w0 = run_connect(nfc, cw, world, new_clf, spec, env, base)
-                polls = sum(1 for t in w0.log if t in ("t0", "t1"))
-                ks = list(range(0, min(polls, len(base)) + 1))
-                if not ck.thorough and len(ks) > 6:
-                    ks = sorted(set(ks[:3] + rng.sample(ks, 3)))
-                streams = [[False] * k for k in ks]          # terminate turns true at every step (stream exhausted = true)
-                if rng.random() < 0.3:
-                    streams.append([rng.random() < 0.3 for _ in range(rng.randrange(1, 12))])   # non-monotone predicate
-            for ts in streams:
+        counters = {"connect": 0, "activation": 0}
+
+        def connect_case(spec, env, ts, kind="connect"):
+            req = "connect %s %s %s" % (spec.token(), "".join("1" if b else "0" for b in ts) or "-", ",".join(env) or "-")
+            try:
                 line, txt, r, w = run_connect(nfc, cw, world, new_clf, spec, env, ts)
-                req = "connect %s %s %s" % (spec.token(), "".join("1" if b else "0" for b in ts) or "-", ",".join(env) or "-")
-                reqs.append((req, line, "connect"))
-                n_connect += 1
-                nontrivial = any(t.startswith("cb:") and ":startup:" not in t for t in w.log) or bool(w.injected)
-                bucket = "connect:" + (txt if not txt.startswith("ok val") else "ok release-value")
-                ck.case(req, nontrivial, bucket, sample={"request": req, "impl": line} if len(ck.samples) < 5 and nontrivial else None)
+            except Exception as e:  # noqa
+                unexpected(ck, kind, e, {"request": req})
+                return
+            reqs.append((req, line, kind))
+            counters[kind] += 1
+            nontrivial = any(t.startswith("cb:") and ":startup:" not in t for t in w.log) or bool(w.injected)
+            bucket = kind + ":" + (txt if not txt.startswith("ok val") else "ok release-value")
+            ck.case(req, nontrivial, bucket, sample={"request": req, "impl": line} if len(ck.samples) < 5 and nontrivial else None)
+            try:
+                judge_connect(spec, env, ts, req, line, txt, r, w)
+            except Exception as e:  # noqa
+                unexpected(ck, kind + "-oracle", e, {"request": req, "impl": line})
+
+        def judge_connect(spec, env, ts, req, line, txt, r, w):
+            if True:
                 if all_supplied(spec):
                     verdict = oracle_connect(ck, cw, spec, env, ts, txt, r, w, {"request": req, "impl": line})
                     ck.count("oracle:" + verdict)
@@ -576,7 +795,48 @@ def run(ck):
                                     "(documented: returns True for all targets when the llcp option is absent)",
                                     {"request": req, "impl": line})
                             break
-        ck.count("connect runs", n_connect)
+
+        # ------------------------------------------------------------ connect(): product of option records x terminate times
+        specs = product_specs(cw)
+        n_rand = 4000 if ck.thorough else 1000
+        specs += [gen_spec(rng, cw, full=(i % 2 == 0)) for i in range(n_rand)]
+        corpus_c = [
+            (cw.ConnSpec(llcp={"su": 0, "co": 2, "re": 2, "role": "i"}), ["F.4400.-.0.0", "X"], [False, False]),     # F21
+            (cw.ConnSpec(card={"su": 0, "kind": "d", "di": 2, "co": 2, "re": 2}), ["0", "L"], [False, False]),        # F30
+            (cw.ConnSpec(rdwr={"su": 0, "tg": ["a3", "b"], "di": 2, "co": 2, "re": 2, "it": 1, "bp": 1}), [], [False, True]),  # F24
+            (cw.ConnSpec(rdwr={"su": 0, "tg": ["a"], "di": "-", "co": 2, "re": 2, "it": 1, "bp": 1}),
+             ["0", "F.4400.-.1.0", "F.4400.-.0.0"], [False, True]),                                                   # default on-discover
+        ]
+        for si, spec in enumerate([c[0] for c in corpus_c] + specs):
+            if si < len(corpus_c):
+                env, streams = corpus_c[si][1], [corpus_c[si][2]]
+            else:
+                env = gen_env(rng, rng.randrange(0, 30), p_found=rng.choice([0.3, 0.5, 0.7, 0.9]),
+                              p_exc=rng.choice([0.0, 0.0, 0.03, 0.1]))
+                # base run: terminate never true within the stream -> how many polls happen
+                base = [False] * (40 if ck.thorough else 14)
+                try:
+                    _, _, _, w0 = run_connect(nfc, cw, world, new_clf, spec, env, base)
+                except Exception as e:  # noqa
+                    unexpected(ck, "connect", e, {"spec": spec.token(), "env": env})
+                    continue
+                polls = sum(1 for t in w0.log if t in ("t0", "t1"))
+                ks = list(range(0, min(polls, len(base)) + 1))
+                if not ck.thorough and len(ks) > 6:
+                    ks = sorted(set(ks[:3] + rng.sample(ks, 3)))
+                streams = [[False] * k for k in ks]          # terminate turns true at every step (stream exhausted = true)
+                if rng.random() < 0.3:
+                    streams.append([rng.random() < 0.3 for _ in range(rng.randrange(1, 12))])   # non-monotone predicate
+            for ts in streams:
+                connect_case(spec, env, ts)
+        ck.count("connect runs", counters["connect"])
+
+        # ------------------------------------------------------------ the activation step inside connect(rdwr=...): the REAL
+        # nfc.tag.activate for every tag kind x every answer (data, each CommunicationError class, device errors) at the
+        # first and at later activation commands
+        for spec, env, ts in activation_cases(ck, cw, rng):
+            connect_case(spec, env, ts, kind="activation")
+        ck.count("activation runs", counters["activation"])
 
         # ------------------------------------------------------------ the real link loop on a failing device (F21)
         txt = real_llc_run_ioerror(nfc, cw, world, new_clf)
@@ -599,6 +859,41 @@ def run(ck):
             if res != "IOError(19)":
                 ck.fail("closed-frontend:" + name, "%s on a closed frontend: %s (documented IOError ENODEV)" % (name, res), {"entry": name})
 
+    # ---------------------------------------------------------------- REAL tags: nothing of nfc.tag is replaced
+    # (oracle only) every tag type x every CommunicationError class / damaged frame / device error at the n-th command
+    # of the run (activation commands and the type specific presence checks) x the tag leaving the field
+    import sims.conn_realtags as rt
+    n_rt = 0
+    state = {"tag": None, "plan": {}, "gone_after": None, "n": 0}
+    with rt.installed(nfc, world, state) as new_clf:
+        for ci, (tag_i, plan, gone) in enumerate(real_tag_cases(ck, rt, rng)):
+            tag = rt.all_tags()[tag_i]
+            co, re_ = [(2, 2), (2, 1), (1, 2), (4, 6)][ci % 4]
+            tg = {"A": ["a", "b"], "B": ["a", "b"], "F": ["f", "a"]}[tag.tech]
+            spec = cw.ConnSpec(rdwr={"su": 0, "tg": tg, "di": 2, "co": co, "re": re_, "it": 1, "bp": ci % 2})
+            ts = [False] * (3 + ci % 4)
+            state.update({"tag": tag, "plan": plan, "gone_after": gone, "n": 0})
+            replay = {"scenario": "real nfc.tag.activate, real Tag classes and presence checks on a scripted device",
+                      "tag": tag.kind, "fault plan (command index -> fault)": {str(k): v for k, v in sorted(plan.items())},
+                      "tag leaves before command": gone, "on-connect": co, "on-release": re_, "terminate false answers": len(ts)}
+            try:
+                line, txt, r, w = run_connect(nfc, cw, world, new_clf, spec, [], ts)
+                replay["impl"] = line
+                replay["commands"] = [c.hex() for c in w.commands[:12]]
+                n_rt += 1
+                ck.case(("real-tag", tag.kind, tuple(sorted(plan.items())), gone, co, re_, len(ts)),
+                        any(t.startswith("cb:rdwr:connect") for t in w.log) or bool(w.injected),
+                        "real-tag:" + tag.kind + ":" + (txt if not txt.startswith("ok val") else "ok release-value"),
+                        sample=replay if n_rt == 5 else None)
+                oracle_connect(ck, cw, spec, [], ts, txt, r, w, replay)
+                # a tag that answers everything is connected in the first round
+                if not plan and gone is None and not any(t.startswith("cb:rdwr:connect") for t in w.log[:12]):
+                    ck.fail("real-tag-not-activated", "%s answers every command but was not connected (log %s)"
+                            % (tag.kind, " ".join(w.log[:12])), replay)
+            except Exception as e:  # noqa
+                unexpected(ck, "real-tag", e, replay)
+    ck.count("real-tag runs", n_rt)
+
     # ---------------------------------------------------------------- the REAL LogicalLinkController over several rounds
     # LogicalLinkController.activate and run_as_initiator/run_as_target are the real ones, only the NFC-DEP MAC is
     # scripted: ONE controller lives through many rounds of the connect() loop (success, peer leaves, failing activations)
@@ -612,7 +907,7 @@ def run(ck):
             ("t", 2, 5, [found(2), "0", "0", found(0), "0"]),
             ("i", 1, 2, ["0", found(1), "0"]),
         ]
-        for _ in range(400 if ck.thorough else 60):
+        for _ in range(400 if ck.thorough else 120):
             scripts.append((rng.choice(["-", "-", "t", "i"]), rng.choice([2, 2, 2, 4, 6, 1, 0]), rng.choice([1, 0, 3, 5, 2, 6]),
                             [found(rng.choice([0, 0, 1, 2, 3])) if rng.random() < 0.4 else ("i" if rng.random() < 0.04 else "0")
                              for _ in range(rng.randrange(1, 9))]))
@@ -624,14 +919,22 @@ def run(ck):
                 if tok.startswith("F."):
                     env_model.append("p%d" % (int(tok.rsplit(".", 1)[1]) + 1))
             base = [False] * (24 if ck.thorough else 12)
-            _, _, _, w0 = run_connect(nfc, cw, world, new_clf, spec, script, base)
+            try:
+                _, _, _, w0 = run_connect(nfc, cw, world, new_clf, spec, script, base)
+            except Exception as e:  # noqa
+                unexpected(ck, "real-llc", e, {"role": role, "script": script})
+                continue
             polls = sum(1 for x in w0.log if x in ("t0", "t1"))
             ks = list(range(0, min(polls, len(base)) + 1))
             if not ck.thorough and len(ks) > 5:
                 ks = sorted(set(ks[:2] + ks[-1:] + rng.sample(ks, 2)))
             for k in ks:
                 ts = [False] * k
-                line, txt, r, w = run_connect(nfc, cw, world, new_clf, spec, script, ts)
+                try:
+                    line, txt, r, w = run_connect(nfc, cw, world, new_clf, spec, script, ts)
+                except Exception as e:  # noqa
+                    unexpected(ck, "real-llc", e, {"role": role, "script": script, "terminate": k})
+                    continue
                 n_real += 1
                 real_line = line
                 req = "connect %s %s %s" % (spec.token(), "".join("0" for _ in ts) or "-", ",".join(env_model) or "-")
@@ -657,10 +960,22 @@ def run(ck):
                 oracle_connect(ck, cw, spec, script, ts, txt, r, w, replay)
     ck.count("real-llc runs", n_real)
 
+    # ---------------------------------------------------------------- constants of the model: the GET_VERSION table
+    try:
+        import nfc.tag.tt2_nxp
+        want = sorted(bytes(k).hex() for k in nfc.tag.tt2_nxp.VERSION_MAP)
+        got = sorted(model.ask_many(["versionmap"])[0].split(","))
+        ck.tie("nfc.tag.tt2_nxp.VERSION_MAP keys = versionMap of the model", cases=len(want), disagreements=int(want != got),
+               exhaustive=True)
+        if want != got:
+            ck.fail("tie:c18-version-map", "VERSION_MAP keys %s, model %s" % (want, got), {"impl": want, "model": got})
+    except Exception as e:  # noqa
+        unexpected(ck, "version-map", e, {})
+
     # ---------------------------------------------------------------- compare with the model
     replies = model.ask_many([r[0] for r in reqs])
-    dis = {"history": 0, "connect": 0, "real-llc": 0}
-    n = {"history": 0, "connect": 0, "real-llc": 0}
+    dis = {"history": 0, "connect": 0, "activation": 0, "real-llc": 0}
+    n = {"history": 0, "connect": 0, "activation": 0, "real-llc": 0}
     for (req, real, kind), rep in zip(reqs, replies):
         n[kind] += 1
         want = strip_defaults(rep) if kind != "history" else rep
@@ -673,5 +988,7 @@ def run(ck):
                     {"request": req, "model": rep, "impl": real})
     ck.tie("sense/listen/exchange histories: model vs ContactlessFrontend", cases=n["history"], disagreements=dis["history"])
     ck.tie("connect(): model vs ContactlessFrontend", cases=n["connect"], disagreements=dis["connect"])
+    ck.tie("connect(rdwr) with the REAL nfc.tag.activate, every tag kind x every answer of the activation commands: "
+           "model vs implementation", cases=n["activation"], disagreements=dis["activation"])
     ck.tie("connect(llcp) on the real LogicalLinkController (scripted NFC-DEP MAC): model vs implementation",
            cases=n["real-llc"], disagreements=dis["real-llc"])
